@@ -2,6 +2,7 @@ package pcdrv
 
 import (
 	"context"
+	"encoding/json"
 	"errors"
 	"fmt"
 	"sort"
@@ -197,7 +198,7 @@ func (s *source) FetchAll(ctx context.Context) ([]*model.ProviderInfo, error) {
 	sort.Ints(pids)
 	out := make([]*model.ProviderInfo, 0, len(pids))
 	for _, p := range pids {
-		out = append(out, s.content[p])
+		out = append(out, cloneInfo(s.content[p])) // a decoding source allocates fresh records
 	}
 	return out, nil
 }
@@ -217,7 +218,7 @@ func (s *source) Fetch(ctx context.Context, pid peer.ID) (*model.ProviderInfo, e
 	if s.failFetch {
 		return nil, errScripted
 	}
-	return s.content[PeerIndex(pid)], nil
+	return cloneInfo(s.content[PeerIndex(pid)]), nil
 }
 
 func (s *source) String() string { return fmt.Sprintf("scripted-%d", s.idx) }
@@ -242,8 +243,63 @@ func timeOf(s string) int64 {
 	return t.Unix() - timeBase
 }
 
-func recOf(pi *model.ProviderInfo) RecV {
-	return RecV{Pid: PeerIndex(pi.AddrInfo.ID), Time: timeOf(pi.LastAdvertisementTime), Tag: AddrTag(pi.AddrInfo.Addrs)}
+// versionInfo builds the record of version `tag` of provider pid: every version differs
+// from every other in content (addresses; extended providers present, absent, present with
+// other content; metadata), so that a record assembled from two versions is none of them.
+func versionInfo(pid int, t int64, tag int) *model.ProviderInfo {
+	pi := &model.ProviderInfo{AddrInfo: AddrInfo(pid, tag), LastAdvertisementTime: timeString(t)}
+	switch tag % 3 {
+	case 1:
+		pi.ExtendedProviders = &model.ExtendedProviders{
+			Providers: []peer.AddrInfo{AddrInfo(50, tag)},
+			Metadatas: [][]byte{{byte(tag), 1}},
+			Contextual: []model.ContextualExtendedProviders{{ContextID: "c", Override: tag%2 == 0,
+				Providers: []peer.AddrInfo{AddrInfo(51, tag)}, Metadatas: [][]byte{{byte(tag), 2}}}},
+		}
+	case 2:
+		pi.ExtendedProviders = &model.ExtendedProviders{
+			Providers: []peer.AddrInfo{AddrInfo(52, tag), AddrInfo(pid, tag+1<<20)},
+			Metadatas: [][]byte{nil, {byte(tag), 3}},
+		}
+	}
+	return pi
+}
+
+func cloneInfo(pi *model.ProviderInfo) *model.ProviderInfo {
+	if pi == nil {
+		return nil
+	}
+	c := *pi
+	c.AddrInfo.Addrs = append(c.AddrInfo.Addrs[:0:0], pi.AddrInfo.Addrs...)
+	if xp := pi.ExtendedProviders; xp != nil {
+		x := *xp
+		x.Providers = append(x.Providers[:0:0], xp.Providers...)
+		x.Metadatas = append(x.Metadatas[:0:0], xp.Metadatas...)
+		x.Contextual = append(x.Contextual[:0:0], xp.Contextual...)
+		c.ExtendedProviders = &x
+	}
+	return &c
+}
+
+// contentKey is the whole content of a record
+func contentKey(pi *model.ProviderInfo) string {
+	b, err := json.Marshal(pi)
+	if err != nil {
+		panic(err)
+	}
+	return string(b)
+}
+
+// registry of the records the scripted sources report: content -> version
+type registry map[string]RecV
+
+// recOf identifies a record the cache handed out BY ITS CONTENT.  A record that is not,
+// field for field, one of the reported records gets tag 0 (no reported version has it).
+func (g registry) recOf(pi *model.ProviderInfo) RecV {
+	if r, ok := g[contentKey(pi)]; ok {
+		return r
+	}
+	return RecV{Pid: PeerIndex(pi.AddrInfo.ID), Time: timeOf(pi.LastAdvertisementTime), Tag: 0}
 }
 
 // ---------------------------------------------------------------------------
@@ -269,6 +325,7 @@ func Run(h History, ttl time.Duration, settle time.Duration) (res RunResult) {
 		panic(err)
 	}
 	tag := 0
+	reg := registry{}
 	epoch := int64(0)
 	var epochStart time.Time
 	epochOpen := false
@@ -289,7 +346,7 @@ func Run(h History, ttl time.Duration, settle time.Duration) (res RunResult) {
 	}
 	observe := func(st *Step) {
 		for _, pi := range pc.List() {
-			st.List = append(st.List, recOf(pi))
+			st.List = append(st.List, reg.recOf(pi))
 		}
 		sort.Slice(st.List, func(i, j int) bool { return st.List[i].Pid < st.List[j].Pid })
 		st.Len = pc.Len()
@@ -321,7 +378,9 @@ func Run(h History, ttl time.Duration, settle time.Duration) (res RunResult) {
 			} else {
 				tag++
 				ai := AddrInfo(op.Pid, tag)
-				s.content[op.Pid] = &model.ProviderInfo{AddrInfo: ai, LastAdvertisementTime: timeString(op.Time)}
+				_ = ai
+				s.content[op.Pid] = versionInfo(op.Pid, op.Time, tag)
+				reg[contentKey(s.content[op.Pid])] = RecV{Pid: op.Pid, Time: op.Time, Tag: tag}
 				s.recs[op.Pid] = RecV{Pid: op.Pid, Time: op.Time, Tag: tag}
 			}
 			s.mu.Unlock()
@@ -524,7 +583,7 @@ func Run(h History, ttl time.Duration, settle time.Duration) (res RunResult) {
 						st.Err, st.ErrText = true, e.Error()
 					}
 					if pi != nil {
-						r := recOf(pi)
+						r := reg.recOf(pi)
 						st.Got = &r
 					}
 					return
@@ -554,7 +613,7 @@ func Run(h History, ttl time.Duration, settle time.Duration) (res RunResult) {
 						st.Err, st.ErrText = true, g.e.Error()
 					}
 					if g.pi != nil {
-						r := recOf(g.pi)
+						r := reg.recOf(g.pi)
 						st.Got = &r
 					}
 					return
@@ -573,7 +632,7 @@ func Run(h History, ttl time.Duration, settle time.Duration) (res RunResult) {
 					st.Err, st.ErrText = true, g.e.Error()
 				}
 				if g.pi != nil {
-					r := recOf(g.pi)
+					r := reg.recOf(g.pi)
 					st.Got = &r
 				}
 				be := <-bdone
